@@ -302,8 +302,8 @@ def lookupOwner (w : World) (k : ClsId) (key : String) : Option (ClsId × Member
 
 def isDunderName (s : String) : Bool := s.startsWith "__" && s.endsWith "__"
 
-/-- would `add_invariant_checks` consider this directory entry for wrapping, given the
-`check_on` of the last invariant (lines 1209-1273) -/
+/-- would `add_invariant_checks` consider this directory entry for wrapping, given the union of the
+`check_on` of the class's invariants (lines 1209-1273) -/
 def wrapCandidate (last : CheckOn) (key : String) (m : Member) : Bool :=
   if key == "__new__" || key == "__repr__" || key == "__getattribute__" then false
   else if key == "__init__" then (match m with | .func _ => true | _ => false)
@@ -325,10 +325,13 @@ def addInvariantChecks (w : World) (k : ClsId) : World :=
   match w.cls? k with
   | none => w
   | some c =>
-    let lastOn : CheckOn :=
-      match (match lookupInv w k .all with | some r => (w.heap.get r).getLast? | none => none) with
-      | some cid => ((w.invCheckOn.find? (·.1 == cid)).map (·.2)).getD { call := true, setattr := false }
-      | none => { call := true, setattr := false }
+    -- the union of the `check_on` of all invariants of the class decides what is wrapped
+    let allOn : List CheckOn :=
+      (match lookupInv w k .all with | some r => w.heap.get r | none => []).map (fun (cid : Nat) =>
+        (match w.invCheckOn.find? (fun (p : CId × CheckOn) => p.1 == cid) with
+         | some p => p.2
+         | none => ({ call := true, setattr := false } : CheckOn)))
+    let lastOn : CheckOn := { call := allOn.any (·.call), setattr := allOn.any (·.setattr) }
     let c' := (dirKeys w c).foldl (fun (c : Cls) key =>
       match lookupOwner (setCls w c) k key with
       | none => c
